@@ -353,9 +353,18 @@ type OpSim struct {
 	Arrivals []Arrival
 }
 
-// Arrival: a task appended by the events handler (filled when the handlers are wrapped).
+// Arrival: a task created by the events handler for a kube event or a schedule tick
+// (observed by wrapping the handler callbacks; the tasks are appended right afterwards).
 type Arrival struct {
+	Kind        string // "kube" or "schedule:<crontab>"
+	Batch       int    // ordinal of the event
+	Seq         int64
 	Queue, Hook string
+	Binding     string
+	Group       string
+	Allow       bool
+	Snapshots   []string
+	Ctx         string // identity of the (single) binding context
 	At          time.Duration
 	Waited      time.Duration
 	IdleHead    bool
@@ -517,6 +526,29 @@ func (o *OpSim) Boot(start bool) {
 		return
 	}
 	o.Op, o.Dbg = op, dbg
+	batch := 0
+	shop.VerifWrapHandlers(op, func(kind string, tasks []task.Task) {
+		batch++
+		for _, t := range tasks {
+			hm, ok := t.GetMetadata().(task_metadata.HookMetadata)
+			if !ok {
+				continue
+			}
+			a := Arrival{Kind: kind, Batch: batch, Seq: o.e.Seq(), Queue: t.GetQueueName(), Hook: hm.HookName, Binding: hm.Binding, Group: hm.Group, Allow: hm.AllowFailure, At: o.e.Since()}
+			if len(hm.BindingContext) > 0 {
+				bc := hm.BindingContext[0]
+				a.Snapshots = bc.Metadata.IncludeSnapshots
+				a.Ctx = bc.Binding + "/" + string(bc.Type) + "/" + string(bc.WatchEvent)
+				if len(bc.Objects) > 0 && bc.Objects[0].Object != nil {
+					a.Ctx += fmt.Sprintf("/%s/%s@%s", bc.Objects[0].Object.GetNamespace(), bc.Objects[0].Object.GetName(), bc.Objects[0].Object.GetResourceVersion())
+				}
+			}
+			o.Arrivals = append(o.Arrivals, a)
+		}
+		if len(tasks) == 0 {
+			o.Arrivals = append(o.Arrivals, Arrival{Kind: kind, Batch: batch, Seq: o.e.Seq(), At: o.e.Since(), Queue: "-"})
+		}
+	})
 	if start {
 		op.Start()
 	}
